@@ -229,13 +229,15 @@ func run(p *propCfg, tier string, seed int64, replay string, determinism bool, s
 	if tier == "thorough" || determinism {
 		detSeeds = p.DetSeedsThorough
 	}
+	detMsg := ""
 	if detSeeds > 0 {
-		if msg := determinismTest(p, bin, scratch, seed, detSeeds); msg != "" {
-			fmt.Fprintln(os.Stderr, "vcheck: determinism self-test failed:", msg)
-			return 2
-		}
+		detMsg = determinismTest(p, bin, scratch, seed, detSeeds)
 	}
 	if determinism {
+		if detMsg != "" {
+			fmt.Fprintln(os.Stderr, "vcheck: determinism self-test failed:", detMsg)
+			return 2
+		}
 		fmt.Printf("determinism self-test passed: %d seeds x 2 in-process runs x 3 processes (GOMAXPROCS 1/4/16)\n", detSeeds)
 		return 0
 	}
@@ -335,6 +337,11 @@ func run(p *propCfg, tier string, seed int64, replay string, determinism bool, s
 		}(w)
 	}
 	wg.Wait()
+	if detMsg != "" {
+		// a violation that reproduces from its replay file stands on its own; otherwise
+		// nondeterminism makes a clean batch worthless: harness trouble
+		trouble = append(trouble, "determinism self-test failed: "+detMsg)
+	}
 	return report(p, tier, seed, outs, crashes, trouble, kn, start, buildS)
 }
 
@@ -574,9 +581,13 @@ func report(p *propCfg, tier string, seed int64, outs []batchOut, crashes []viol
 		"property_id": p.ID, "tier": tier, "seed": seed, "level": p.Level,
 		"coverage": cov, "assumptions": p.Assumptions, "wall_s": wall, "violations": len(fresh),
 	}
-	os.MkdirAll(filepath.Join(verifDir, "evidence"), 0o755)
+	evDir := filepath.Join(verifDir, "evidence")
+	if d := os.Getenv("VERIF_EVIDENCE_DIR"); d != "" {
+		evDir = d // used when checking seeded mutants, so that committed evidence is not overwritten
+	}
+	os.MkdirAll(evDir, 0o755)
 	b, _ := json.MarshalIndent(ev, "", " ")
-	evPath := filepath.Join(verifDir, "evidence", p.ID+".json")
+	evPath := filepath.Join(evDir, p.ID+".json")
 	os.WriteFile(evPath+".tmp", b, 0o644)
 	os.Rename(evPath+".tmp", evPath)
 
